@@ -43,6 +43,24 @@ PROPS = {
         "trusted_base": COMMON_TB,
         "assumptions": ["u64 overflow of chunk_index*chunk_size excluded", "serde_json round trip of the configuration is exercised (via=meta), not modelled"],
     },
+    "C13": {
+        "claimed": False,
+        "lean_props": ["ZarrsModel.Props.C13"],
+        "harness": "c13",
+        "rule": "MetadataV3 texts (24 fixed forms incl. sequence form, null/ill-typed members, unknown keys + random); structured ArrayMetadataV3 documents: ranks 0..3, 7 data types with matching fill "
+                "values, string/object/empty-configuration name forms, all chunk key encodings, transpose/bytes/gzip/crc32c/zstd codec lists with unknown skippable codecs, attributes (nested, unicode, "
+                "escapes, all number kinds, `_zarrs`, `must_understand` keys), storage_transformers, dimension_names with nulls, 0..3 additional fields with `must_understand:false` at any key position, shuffled "
+                "field order; one third mutated by one of 15 faults (format/node type, missing field, ill-typed shape, rank disagreement of shape/grid/dimension names, unknown or malformed data type / grid / "
+                "key encoding / codec / storage transformer incl. 20 unusable-but-well-formed codec lists, wrong fill, ill-typed attributes, must-understand additional field of 10 shapes, repeated key); each "
+                "through serde twice and through open/metadata/store/re-open/store/operations; group documents likewise; V2 array and group documents (60% within the supported subset) through serde twice and "
+                "store/re-open; hierarchy histories of 4..20 (thorough 40) operations (create V2/V3 group/array, erase metadata, erase prefix, stray keys, reserved `__` names) with every query after and at the end, "
+                "on memory / filesystem / object_store / opendal stores; non-trivial = distinct request with an `ok`/`ser=`/`nodes` outcome",
+        "nontrivial": lambda l: (" -> ok " in l or " -> ser=" in l or " -> nodes /" in l or " -> all=/" in l or " -> groups=/" in l),
+        "exhaustive": False,
+        "trusted_base": COMMON_TB + ["serde derive semantics (field order, flatten, untagged, sequence form) are modelled by hand and tied by the correspondence only", "plugin acceptance of a configuration is the generator's statement (documents built from valid parts must open; others may go either way)"],
+        "assumptions": ["numbers in documents are written in serde_json's own canonical text", "node names are ASCII (object_store percent-encodes others)", "fill values that are JSON objects (HashMap order) are not compared"],
+        "timeout": 3000,
+    },
     "C14": {
         
         "lean_props": ["ZarrsModel.Props.C14"],
